@@ -176,10 +176,10 @@ pub fn c05_world(seed: u64, corpus: &[Program]) -> (World, Dims) {
         if r.chance(1, 2) {
             let n = jobs[j].source.0.len() as u64;
             jobs[j].reader.error_at = Some(r.below(n + 1));
-            jobs[j].reader.error_flavor = r.below(4) as u8;
+            jobs[j].reader.error_flavor = if r.chance(1, 3) { 4 } else { r.below(4) as u8 };
         } else {
             jobs[j].writer.error_at = Some(r.below(2000));
-            jobs[j].writer.error_flavor = r.below(4) as u8;
+            jobs[j].writer.error_flavor = if r.chance(1, 3) { 4 } else { r.below(4) as u8 };
         }
     }
     // placement: shuffle job indices over threads, every thread gets at least one
@@ -549,14 +549,14 @@ pub fn c16_world(seed: u64, corpus: &[Program]) -> World {
         job.reader = stream(&mut r, true, true);
         if r.chance(1, 2) {
             job.reader.error_at = Some(r.below(job.source.0.len() as u64 + 1));
-            job.reader.error_flavor = r.below(4) as u8;
+            job.reader.error_flavor = r.below(5) as u8;
         }
     }
     if r.chance(1, 4) {
         job.writer = stream(&mut r, true, true);
         if r.chance(1, 2) {
             job.writer.error_at = Some(r.below(3000));
-            job.writer.error_flavor = r.below(4) as u8;
+            job.writer.error_flavor = r.below(5) as u8;
         }
     }
     coarsen(&mut job);
@@ -620,13 +620,13 @@ pub fn delivery_world(prop: &str, corpus: &[Program], pi: usize, v: usize) -> Wo
             // variants 14..=25: offsets 60, 140, .. up to ~1500 bytes
             let k = (v - 14) as u64;
             j.writer.error_at = Some(60 + 80 * k + 45 * (k % 3) * k);
-            j.writer.error_flavor = (k % 4) as u8;
+            j.writer.error_flavor = (k % 5) as u8;
             if k % 2 == 1 {
                 j.writer.chunks = ChunkSpec::Fixed(7);
             }
             if k >= 8 {
                 j.reader.error_at = Some((n * (k - 7)) / 5);
-                j.reader.error_flavor = (k % 4) as u8;
+                j.reader.error_flavor = (k % 5) as u8;
                 j.writer.error_at = None;
             }
         }
